@@ -49,98 +49,105 @@ def content_type_rules(ctx, prog, ser, pk, spec, ox, rid):
     dao = cti.methods.get("_defaults_and_overrides") if cti else None
     if dao is None:
         raise AnalysisError("anchor vanished: _ContentTypesItem._defaults_and_overrides")
-    loops = [n for n in walk_own(dao.node) if isinstance(n, ast.For) and dotted(n.iter) == "self._parts"]
-    if len(loops) != 1:
-        raise AnalysisError("_defaults_and_overrides: expected one loop over self._parts")
-    lp = loops[0]
-    ifs = [st for st in lp.body if isinstance(st, ast.If)]
-    decision = ifs[-1] if ifs else None
+    # the decision is analysed on the canonical function (helpers and predicates inlined) and on paths: for every path through the
+    # loop body, which table receives the part and under which branch decisions
+    from sa import paths as P_
+    from sa.inline import expand as _expand
+    from sa.itersrc import source_of as _src_of
+
+    dx = _expand(prog, dao)
+    al = P_.aliases(dx)
+    loops = [n for n in ast.walk(dx) if isinstance(n, ast.For) and isinstance(n.target, ast.Name)
+             and (_src_of(dx, n.iter)["terminal"] or "") == "self._parts"]
     key = "_ContentTypesItem._defaults_and_overrides"
-
-    def stores_into(stmts, name):
-        return [n for st in stmts for n in ast.walk(st) if isinstance(n, ast.Assign) and isinstance(n.targets[0], ast.Subscript)
-                and dotted(n.targets[0].value) == name]
-
-    if decision is None or not decision.orelse:
-        ctx.violation(rid, key + ":total", "some part gets neither a Default nor an Override", file=dao.file, line=dao.line)
-    else:
-        d_st, o_st = stores_into(decision.body, "defaults"), stores_into(decision.orelse, "overrides")
-        other = stores_into(lp.body, "defaults") + stores_into(lp.body, "overrides")
-        cond_exit = any(isinstance(n, (ast.Continue, ast.Break)) for n in ast.walk(lp))
-        if d_st and o_st and len(other) == len(d_st) + len(o_st) and not cond_exit:
-            ctx.ok(rid, key + ":total", sample={"decision": ast.unparse(decision.test), "then": "defaults[ext] = type", "else": "overrides[partname] = type"})
-        else:
-            ctx.violation(rid, key + ":total", "the Default/Override decision is not a two-way split that stores exactly one "
-                          "declaration per part", file=dao.file, line=decision.lineno)
-        # values stored are the part's own
-        loc = {}
-        for st in lp.body:
-            if isinstance(st, ast.Assign):
-                if isinstance(st.targets[0], ast.Tuple) and isinstance(st.value, ast.Tuple):
-                    for a, b in zip(st.targets[0].elts, st.value.elts):
-                        loc[a.id] = dotted(b)
-                elif isinstance(st.targets[0], ast.Name):
-                    loc[st.targets[0].id] = dotted(st.value)
+    if len(loops) != 1:
+        ctx.error(key, "loop over self._parts not recognised")
+        loops = []
+    for lp in loops:
         tgt = lp.target.id
+        seeds_src = {}
+        rows = []   # (facts, [(table, key-src, value-src)])
+        for pth in P_.enum_paths(lp.body):
+            if pth.end == "raise":
+                continue
+            stores = []
+            for st in pth.stmts():
+                for n in ast.walk(st):
+                    if isinstance(n, ast.Assign) and isinstance(n.targets[0], ast.Subscript) and dotted(n.targets[0].value) in ("defaults", "overrides"):
+                        stores.append((dotted(n.targets[0].value), P_.norm(n.targets[0].slice, al), P_.norm(n.value, al), n.lineno))
+            rows.append((P_.facts(pth, None, al), stores, pth))
+        probs_total, probs_own, probs_table, probs_conf = [], [], [], []
+        n_def = 0
+        for fs, stores, pth in rows:
+            if len(stores) != 1:
+                probs_total.append("a path through the loop stores %d declarations for a part (must be exactly one)" % len(stores))
+                continue
+            tbl, ksrc, vsrc, ln = stores[0]
+            if vsrc != tgt + ".content_type" or ksrc != (tgt + ".partname.ext" if tbl == "defaults" else tgt + ".partname"):
+                probs_own.append("%s[%s] = %s is not keyed by the part's own %s with its own type" % (tbl, ksrc, vsrc, "extension" if tbl == "defaults" else "name"))
+            if tbl == "defaults":
+                n_def += 1
+                in_table = any(a_[0] == "in" and a_[2] == "default_content_types" and a_[3] is True for a_ in fs)
+                if not in_table:
+                    probs_table.append("a Default is stored on a path that has not established (extension, type) in default_content_types")
+                ext = tgt + ".partname.ext"
 
-        def src(n):
-            d = dotted(n)
-            seen = set()
-            while d in loc and d not in seen:
-                seen.add(d)
-                d = loc[d]
-            parts = d.split(".")
-            if parts[0] in loc:
-                d = loc[parts[0]] + "." + ".".join(parts[1:])
-            return d
+                def free_or_same(fs_):
+                    for a_ in fs_:
+                        if a_[0] == "in" and a_[1] == ext and a_[2] == "defaults" and a_[3] is False:
+                            return True
+                        if (a_[0] == "cmp" and a_[1] in ("Eq", "NotEq") and a_[4] is (a_[1] == "Eq")
+                                and {a_[2], a_[3]} in ({"defaults[%s]" % ext, tgt + ".content_type"}, {"defaults.get(%s)" % ext, tgt + ".content_type"})):
+                            return True
+                        if a_[0] == "or" and all(free_or_same(alt) for alt in a_[1]):
+                            return True
+                    return False
 
-        good = (d_st and src(d_st[0].value) == tgt + ".content_type" and src(d_st[0].targets[0].slice) == tgt + ".partname.ext"
-                and o_st and src(o_st[0].value) == tgt + ".content_type" and src(o_st[0].targets[0].slice) == tgt + ".partname")
-        if good:
-            ctx.ok(rid, key + ":own-values", sample={"default": "(part.partname.ext, part.content_type)", "override": "(part.partname, part.content_type)"})
+                if multi and not free_or_same(fs):
+                    probs_conf.append(ln)
+        if not rows:
+            ctx.error(key, "no path through the loop body")
         else:
-            ctx.violation(rid, key + ":own-values", "declarations are not keyed by the part's own extension / name with its own type",
-                          file=dao.file, line=decision.lineno)
-        # conflict guard
-        test_src = ast.unparse(decision.test)
-        guard = False
-        for n in ast.walk(decision.test):
-            # ext not in defaults / defaults[ext] == content_type / defaults.get(ext, ..) == content_type
-            if isinstance(n, ast.Compare) and any(dotted(x) == "defaults" or (isinstance(x, ast.Subscript) and dotted(x.value) == "defaults")
-                                                  or (isinstance(x, ast.Call) and dotted(x.func) == "defaults.get")
-                                                  for x in [n.left] + n.comparators):
-                guard = True
-        table_member = any(isinstance(n, ast.Compare) and isinstance(n.ops[0], ast.In) and dotted(n.comparators[0]) == "default_content_types"
-                           for n in ast.walk(decision.test))
-        if not table_member:
-            ctx.violation(rid, key + ":table", "Default is not restricted to the (extension, type) rows of default_content_types",
-                          file=dao.file, line=decision.lineno)
-        else:
-            ctx.ok(rid, key + ":table", nontrivial=False)
-        if not multi:
-            ctx.ok(rid, key + ":conflict", sample={"default_table": "a function extension -> type (%d rows)" % len(dct)})
-        elif guard:
-            ctx.ok(rid, key + ":conflict", sample={"extensions_with_several_types": multi, "writer": "falls back to Override when the "
-                                                      "extension already has a different Default: " + test_src})
-        else:
-            e, v = sorted(multi.items())[0]
-            ctx.violation(rid, key + ":conflict", "extension %r has %d listed types (%s) and `defaults[ext] = content_type` is "
-                          "unconditional: two .%s parts of different listed types share one Default and one of them is re-opened with "
-                          "the other's content type" % (e, len(v), ", ".join(x.rsplit(".", 1)[-1] for x in v), e),
-                          file=dao.file, line=d_st[0].lineno if d_st else decision.lineno,
-                          witness="parts /a/x.%s [%s] and /b/y.%s [%s]" % (e, v[0], e, v[1]))
-        # pre-seeded defaults must be table rows as well (rels, xml)
-        seeds = [n for n in walk_own(dao.node) if isinstance(n, ast.Call) and dotted(n.func) == "CaseInsensitiveDict"]
-        sd = {}
-        for c in seeds:
-            for k in c.keywords:
-                sd[k.arg] = prog.const(k.value, dao.module)
-        bad = {k: v for k, v in sd.items() if (k, v) not in set(dct)}
-        if seeds and not bad:
-            ctx.ok(rid, key + ":seeded-defaults", sample={"seeded": sd})
-        else:
-            ctx.violation(rid, key + ":seeded-defaults", "pre-seeded Defaults %s are not rows of the Default table: a part with that "
-                          "extension and another type would be misdeclared" % bad, file=dao.file, line=dao.line)
+            if probs_total:
+                ctx.violation(rid, key + ":total", "; ".join(sorted(set(probs_total))), file=dao.file, line=dao.line)
+            else:
+                ctx.ok(rid, key + ":total", sample={"paths": len(rows), "each_stores": "exactly one of defaults[ext] / overrides[partname]"})
+            if probs_own:
+                ctx.violation(rid, key + ":own-values", "; ".join(sorted(set(probs_own))), file=dao.file, line=dao.line)
+            else:
+                ctx.ok(rid, key + ":own-values", sample={"default": "(part.partname.ext, part.content_type)", "override": "(part.partname, part.content_type)"})
+            if probs_table:
+                ctx.violation(rid, key + ":table", "; ".join(sorted(set(probs_table))), file=dao.file, line=dao.line)
+            elif n_def == 0:
+                ctx.error(key, "no path stores a Default")
+            else:
+                ctx.ok(rid, key + ":table", nontrivial=False)
+            if not multi:
+                ctx.ok(rid, key + ":conflict", sample={"default_table": "a function extension -> type (%d rows)" % len(dct)})
+            elif probs_conf:
+                e, v = sorted(multi.items())[0]
+                ctx.violation(rid, key + ":conflict", "extension %r has %d listed types (%s) and a Default is stored (line %d) on a path that has neither "
+                              "established that the extension is still free nor that its Default already has this type: two .%s parts of "
+                              "different listed types share one Default and one of them is re-opened with the other's content type" % (
+                                  e, len(v), ", ".join(x.rsplit(".", 2)[-2] + "." + x.rsplit(".", 1)[-1] if x.count(".") > 1 else x for x in v), probs_conf[0], e),
+                              file=dao.file, line=probs_conf[0], witness="parts /a/x.%s [%s] and /b/y.%s [%s]" % (e, v[0], e, v[1]))
+            else:
+                ctx.ok(rid, key + ":conflict", sample={"extensions_with_several_types": multi,
+                                                      "writer": "a Default is stored only where the extension is free or already has this type"})
+    # pre-seeded defaults must be table rows as well (rels, xml)
+    seeds = [n for n in ast.walk(dao.node) if isinstance(n, ast.Call) and dotted(n.func) == "CaseInsensitiveDict"]
+    sd = {}
+    for c in seeds:
+        for k in c.keywords:
+            sd[k.arg] = prog.const(k.value, dao.module)
+    bad = {k: v for k, v in sd.items() if (k, v) not in set(dct)}
+    if seeds and not bad:
+        ctx.ok(rid, key + ":seeded-defaults", sample={"seeded": sd})
+    elif seeds:
+        ctx.violation(rid, key + ":seeded-defaults", "pre-seeded Defaults %s are not rows of the Default table: a part with that "
+                      "extension and another type would be misdeclared" % bad, file=dao.file, line=dao.line)
+    else:
+        ctx.error(key, "construction of the defaults table not recognised")
     # serialisation of the two dicts: every item is emitted
     xmlf = cti.methods.get("_xml")
     emitted = set()
